@@ -209,24 +209,40 @@ def max_edge_diff(f, a, b):
     return float(np.max(np.abs(ff[a] - ff[b])))
 
 
-def build_field(H, W, spec, a, b):
+MAX_ABS_PHASE = 200.0  # rad; a connected 28x28 region with steps <= 0.95*pi spans at most 54*0.95*pi = 161
+
+
+def build_field(H, W, spec, a, b, inm):
     """float64 (H, W) field = weighted sum of the terms, whose largest |difference| over the pixel
-    pairs (a, b) is spec['frac']*pi (exactly the Itoh condition over the edges that matter), plus a global offset.
-    A field that is constant over those pairs is returned as is (nothing to rescale)."""
+    pairs (a, b) is at most spec['frac']*pi (Itoh's condition over exactly the pairs that matter),
+    plus a global offset.  `inm` (H, W) bool: the pixels the property speaks about.
+
+    Magnitudes are kept physical by construction: a term that is numerically flat over the pairs that
+    matter (largest step < 1e-6 of its own peak-to-peak) is dropped rather than blown up; the field is
+    centred on its in-mask mean and, if it still exceeds MAX_ABS_PHASE on the mask (regions that are
+    not connected to each other carry no step constraint between them), scaled *down* - which only
+    makes the steps smaller; outside the mask, where nothing is claimed, values are clipped."""
     f = np.zeros((H, W))
     for t in spec["terms"]:
         g = _term(H, W, t)
         dg = max_edge_diff(g, a, b)
-        if dg > 0 and math.isfinite(dg):
+        ptp = float(np.ptp(g))
+        if math.isfinite(dg) and math.isfinite(ptp) and dg > 1e-6 * ptp and dg > 0:
             # every term enters with unit largest step, times its weight
             f = f + g * (t["w"] / dg)
     d = max_edge_diff(f, a, b)
-    if d > 0 and math.isfinite(d):
-        f = f * (spec["frac"] * math.pi / d)
+    target = spec["frac"] * math.pi
+    if d > 0 and math.isfinite(d) and np.all(np.isfinite(f)):
+        f = f * (target / d)
+        f = f - float(np.mean(f[inm]))
+        m = float(np.max(np.abs(f[inm])))
+        if m > MAX_ABS_PHASE:
+            f = f * (MAX_ABS_PHASE / m)
         # guard against a rounding overshoot of the rescale (keeps the bound exact)
         d2 = max_edge_diff(f, a, b)
-        if d2 > spec["frac"] * math.pi:
-            f = f * (spec["frac"] * math.pi / d2) * (1 - 1e-12)
+        if d2 > target:
+            f = f * (target / d2) * (1 - 1e-12)
+        f = np.where(inm, f, np.clip(f, -MAX_ABS_PHASE, MAX_ABS_PHASE))
     else:
         f = np.zeros((H, W))
     return f + spec["offset"]
